@@ -20,6 +20,13 @@ theorem tsMs_val (rate : Int) (ts : Nat) : tsMs rate ts = .ok (tsMsV rate ts) :=
 
 theorem tsMs_ok' (rate : Int) (ts : Nat) : ∃ v, tsMs rate ts = .ok v := ⟨_, tsMs_val rate ts⟩
 
+/-- the one division of `rtpTimestamp2Ms`, `uint64(ts)*1000/uint64(clockRate)`, runs behind the `clockRate <= 0` guard:
+    the divisor is positive (and `uint64` of a positive Go int is that int) ... -/
+theorem tsMs_divisor_pos (rate : Int) (h : ¬ rate ≤ 0) : 0 < rate.toNat := by omega
+
+/-- ... and the dividend of a 32-bit RTP timestamp does not wrap in 64 bits, so `tsMs`'s `Nat` arithmetic is the Go arithmetic -/
+theorem tsMs_dividend_lt (ts : Nat) (h : ts < 4294967296) : ts * 1000 < 18446744073709551616 := by omega
+
 /-- position type consistent with the body length -/
 def PosOk (hevc : Bool) (p : RtpPacket) (b : Bytes) : Prop :=
   ((p.pos = 2 ∨ p.pos = 3 ∨ p.pos = 4) → (if hevc then 3 else 2) ≤ b.length) ∧ (p.pos = 6 → 2 ≤ b.length)
